@@ -86,8 +86,8 @@ def specs(T):
     T.body_contains(C, CNA + 'guess_xx', 'return ~is_xy')
 
     # ---- shift_xx / expect_flat_log2
-    T.body_contains(C, CNA + 'shift_xx', "outprobes[outprobes.chromosome == self.chr_x_label, 'log2'] -= 1.0")
-    T.body_contains(C, CNA + 'shift_xx', "outprobes[outprobes.chromosome == self.chr_x_label, 'log2'] += 1.0")
+    T.body_contains(C, CNA + 'shift_xx', "outprobes[self.chr_x_filter(diploid_parx_genome), 'log2'] -= 1.0")
+    T.body_contains(C, CNA + 'shift_xx', "outprobes[self.chr_x_filter(diploid_parx_genome), 'log2'] += 1.0")
     T.body_contains(C, CNA + 'shift_xx', 'if is_xx and is_haploid_x_reference:')
     T.body_contains(C, CNA + 'shift_xx', 'elif not is_xx and (not is_haploid_x_reference):')
     sx = T.numbers_in(C, CNA + 'shift_xx')
